@@ -46,6 +46,10 @@ func suiteConvertStlStyled(R *runner, r *rng) {
 				Human: map[string]interface{}{"file_hex": hexShort(data), "dsc": string(f.DSC), "fps": f.FPS, "ignore_programme_start": ign}}
 			R.count("conv.styled.stl->" + dst.name)
 			R.count("conv.styled.stl.dsc" + string(f.DSC))
+			if stlSourceInDomain(s, dst.name) {
+				// the hypotheses of C07_stl_to_vtt_styled / C07_stl_to_ttml_styled, as far as they are visible on the cue list
+				R.count("conv.styled.stl->" + dst.name + ".in-theorem-domain")
+			}
 			var werr error
 			p := safely(func() { werr = dst.write(s, &out) })
 			switch {
@@ -92,4 +96,35 @@ func itemNows(it *astisub.Item) string {
 		t += nows(l.String()) + "/"
 	}
 	return t
+}
+
+// the visible part of stl_vtt_ok / stlttml_ok: times not negative, (ttml) every cue has a line, (vtt) no two adjacent runs
+// of one written colour class
+func stlSourceInDomain(s *astisub.Subtitles, dst string) bool {
+	if len(s.Items) == 0 {
+		return false
+	}
+	class := map[string]string{"#00ffff": "cyan", "#ffff00": "yellow", "#ff0000": "red", "#ff00ff": "magenta"}
+	for _, it := range s.Items {
+		if it.StartAt < 0 || it.EndAt < 0 {
+			return false
+		}
+		if dst == "ttml" && len(it.Lines) == 0 {
+			return false
+		}
+		for _, l := range it.Lines {
+			prev := ""
+			for _, li := range l.Items {
+				c := ""
+				if li.InlineStyle != nil && li.InlineStyle.TTMLColor != nil {
+					c = class[*li.InlineStyle.TTMLColor]
+				}
+				if dst == "vtt" && c != "" && c == prev {
+					return false
+				}
+				prev = c
+			}
+		}
+	}
+	return true
 }
